@@ -533,9 +533,9 @@ fn check_spec_inner(ctx: &Ctx, mode: Mode, g: &RefGrammar) -> Stats {
 
 pub fn spec_space(ctx: &Ctx) -> (Vec<RefGrammar>, Vec<(String, usize)>, usize) {
     let lists = if ctx.quick() {
-        universe_list(&[(2, 2, 2, 2, 5), (2, 2, 2, 3, 4), (2, 3, 2, 2, 5), (3, 2, 2, 2, 4)])
+        universe_list(&[(2, 2, 2, 2, 5), (2, 2, 2, 3, 4), (2, 3, 2, 2, 5), (3, 2, 2, 2, 4), (2, 1, 2, 3, 7)])
     } else {
-        universe_list(&[(2, 2, 2, 2, 6), (2, 3, 2, 2, 5), (3, 2, 2, 2, 5), (2, 2, 3, 2, 5), (2, 2, 2, 3, 6)])
+        universe_list(&[(2, 2, 2, 2, 6), (2, 3, 2, 2, 5), (3, 2, 2, 2, 5), (2, 2, 3, 2, 5), (2, 2, 2, 3, 6), (2, 1, 2, 4, 8)])
     };
     let (mut bases, mut sizes) = union(lists);
     let fe = family_expr();
